@@ -131,7 +131,7 @@ pub fn all() -> Vec<PropDef> {
         real: REAL_ASYNC.to_vec(), stub: STUB_ASYNC.to_vec(),
     });
     v.push(PropDef {
-        miri: Some(("c10", 64, 4096)),
+        miri: Some(("c10", 24, 2048)),
         id: "C10", level: "exploration", driver: "D2 deterministic executor + simulated transport; concurrent writer sub-tasks with their own wakers",
         scens: vec![s("writers", d2::c10, 90_000, 3_000_000)],
         rule: "each run = 1..3 StreamWriters (stdout, stderr, a clone) on separately polled sub-futures plus a reader sub-future that drives reply flushing, write sizes from {0,1,7,8,9,255,256,..3000,65535,65536,70000}, flush between writes, a transport that cuts every (vectored) write anywhere or returns Pending, poll order of sub-futures chosen per step; the log must decode into complete records equal, in completion order, to the successful writes (type, id, payload, padding) with replies as whole records in between",
